@@ -173,7 +173,7 @@ CHECKS["C18"] = dict(
     category="model_checking",
     text="A2ml.tla specifies the A2ML declaration semantics (Resolve: scoping of named types, one name space per kind, block / repeat flags, array nesting) and the type-directed IF_DATA interpreter with its cursor restore, definition order (built-in before in-file) and the fallback for undescribed content (transcribed from ifdata.rs). A grammar-based generator produces well-formed LL(1)-unambiguous definitions (depth <= 4, all ten scalar types, char[n], enums, structs, arrays, sequences, tagged structs / unions, blocks, references); the type tree the library builds (hook parse_a2ml) is compared with Resolve by TLC; conforming instances and single-token deviations at all eleven IF_DATA sites, with the definition in the file, built-in or both, strict and lenient, are judged block by block by TLC (Trace_A2ml: validity flag, diagnostics, error class and line, ConformingIsValid) and the specification's value tree is compared leaf by leaf with the stored values; write / three reload cycles and ifdata_cleanup (exactly the invalid blocks go, CleanupVerdict) are checked per document.",
     design_ref="DESIGN.md §4.10, §6 C18",
-    note="Random exploration of the definition language (60 definitions / 3 400 blocks quick, 3 000 / 170 000 thorough), exhaustive over nothing. The A2ML lexer (text to declaration list) is exercised through the rendered text of every generated definition but is not itself specified. Ambiguous definitions and multiplicity of non-repeatable tags are outside the claim (see evidence assumptions).",
+    note="Random exploration of the definition language (60 definitions / 3 400 blocks quick, 10 000 / 570 000 thorough), exhaustive over nothing. The A2ML lexer (text to declaration list) is exercised through the rendered text of every generated definition but is not itself specified. Ambiguous definitions and multiplicity of non-repeatable tags are outside the claim (see evidence assumptions).",
     technique="TLA+ spec (A2ml.tla) evaluated by TLC on observed executions (trace validation of type trees, IF_DATA blocks and cleanup results recorded from the real library)",
     engine="tlc+replay",
 )
